@@ -361,39 +361,83 @@ def run(ctx: Ctx, rs: RuleSet, tier: str):
   rs.check(ok, rule, f'{cb.qualname}:key-union',
            'iterates the union of both argument key sets',
            ctx.loc(cb, cb.node))
-  # same lookup on both sides
+  # same lookup on both sides: the two values compared with != in the loop
+  # are obtained the same way from x and from y - by the same lookup function
+  # (nested or module-level) or by the same in-line lookup
   ok = False
+  ok_defaults = False
   lookup_fn = None
+  operands = []
   if loop is not None:
     k = unparse(loop.target)
-    assigns = [s for s in loop.body if isinstance(s, ast.Assign) and
-               isinstance(s.value, ast.Call)]
-    calls = [(unparse(s.value.func), [unparse(a) for a in s.value.args],
-              s.value) for s in assigns]
-    fns = {c[0] for c in calls}
-    if len(calls) >= 2 and len(fns) == 1:
-      # the two argument lists are the same up to the operand, and name the key
-      def shape(args, operand):
-        return ['@' if a == operand else a for a in args]
-      sx = [c for c in calls if x in c[1] and y not in c[1]]
-      sy = [c for c in calls if y in c[1] and x not in c[1]]
-      ok = (len(sx) == 1 and len(sy) == 1 and len(calls) == 2 and
-            shape(sx[0][1], x) == shape(sy[0][1], y) and k in sx[0][1])
-      fe = calls[0][2].func
-      if isinstance(fe, ast.Name) and fe.id in cb.nested:
-        lookup_fn = cb.nested[fe.id]
-      else:
-        lookup_fn = p.funcs.get(p.resolve(fe, cb) or '')
+    for n in g.nodes():
+      if g.kind[n] != 'if':
+        continue
+      for c in ast.walk(g.stmt[n].test):
+        if isinstance(c, ast.Compare) and len(c.ops) == 1 and isinstance(
+            c.ops[0], ast.NotEq) and isinstance(c.left, ast.Name) and (
+                isinstance(c.comparators[0], ast.Name)) and any(
+                    z is c for b_ in loop.body for z in ast.walk(b_)):
+          operands = [(n, c.left.id), (n, c.comparators[0].id)]
+
+    import copy as _copy
+
+    def through_copies(v, m):
+      # names that merely hold another name at that point read as that name
+      class T(ast.NodeTransformer):
+
+        def visit_Name(self, nd_):
+          if isinstance(nd_.ctx, ast.Load):
+            e_, _ = roles.value_at(g, m, nd_, 3)
+            if isinstance(e_, ast.Name) and e_ is not nd_:
+              return ast.copy_location(ast.Name(id=e_.id, ctx=ast.Load()), nd_)
+          return nd_
+
+      return T().visit(_copy.deepcopy(v))
+
+    def leaves(n, name, depth=0):
+      out = []
+      for m, kind, v in roles.reaching(g, n, name):
+        if kind == 'value' and isinstance(v, ast.Name) and depth < 3:
+          out += leaves(m, v.id, depth + 1)
+        elif kind == 'value':
+          out.append(through_copies(v, m))
+        else:
+          out.append(None)
+      return out
+
+    if len(operands) == 2:
+      lx, ly = leaves(*operands[0]), leaves(*operands[1])
+      if None not in lx + ly and lx and ly:
+        def shape(es, operand):
+          import re as _re
+          return sorted(_re.sub(rf'\b{operand}\b', '@', unparse(e))
+                        for e in es)
+        tx, ty = unparse(ast.Tuple(elts=lx, ctx=ast.Load())), unparse(
+            ast.Tuple(elts=ly, ctx=ast.Load()))
+        # which operand each side reads
+        import re as _re2
+
+        def has(nm, t):
+          return _re2.search(rf'\b{nm}\b', t) is not None
+
+        if has(x, tx) and not has(y, tx) and has(y, ty) and not has(x, ty):
+          ok = shape(lx, x) == shape(ly, y) and has(k, tx)
+        elif has(y, tx) and not has(x, tx) and has(x, ty) and not has(y, ty):
+          ok = shape(lx, y) == shape(ly, x) and has(k, tx)
+        if len(lx) == 1 and isinstance(lx[0], ast.Call):
+          fe = lx[0].func
+          if isinstance(fe, ast.Name) and fe.id in cb.nested:
+            lookup_fn = cb.nested[fe.id]
+          else:
+            lookup_fn = p.funcs.get(p.resolve(fe, cb) or '')
+        src_l = unparse(lookup_fn.node) if lookup_fn is not None else tx
+        ok_defaults = ('.__arguments__.get(' in src_l and
+                       '.get_default(' in src_l)
   rs.check(ok, rule, f'{cb.qualname}:same-lookup',
            'the same value-or-default lookup is applied to both operands',
            ctx.loc(cb, cb.node))
-  gd = lookup_fn
-  ok = False
-  if gd is not None:
-    srcg = unparse(gd.node)
-    ok = ('.__arguments__.get(' in srcg and
-          '.__signature_info__.get_default(' in srcg)
-  rs.check(ok, rule, f'{cb.qualname}:defaults',
+  rs.check(ok_defaults, rule, f'{cb.qualname}:defaults',
            'an unset argument is compared through the parameter default',
            ctx.loc(cb, cb.node))
   # one-sided missing -> False; v1 != v2 -> False
@@ -404,11 +448,7 @@ def run(ctx: Ctx, rs: RuleSet, tier: str):
            'False', ctx.loc(cb, cb.node), nontrivial=False)
   # reflexivity for leaves that are not equal to themselves (NaN): the same
   # object on both sides is never reported as different
-  looked_up = roles.assigned_from(cb, lambda e: isinstance(e, ast.Call) and
-                                  isinstance(e.func, ast.Name) and
-                                  (e.func.id in cb.nested or (
-                                      lookup_fn is not None and
-                                      e.func.id == lookup_fn.name)))
+  looked_up = {nm for _, nm in operands}
   ne_tests = [t for n in walk_function(cb.node) if isinstance(n, ast.If)
               for t in [n.test] if any(
                   isinstance(c, ast.Compare) and isinstance(
